@@ -163,6 +163,13 @@ func genC17(c *mon.Ctx) []hcase {
 						f = append(f, le32(crc32.ChecksumIEEE(f))...)
 						tails["crc-ok"] = f[4:]
 					}
+					if proto == pFull && v >= 8 && v < 12 {
+						// a frame shorter than its own framing (no room for the seqno) whose
+						// last four bytes are nevertheless a correct CRC of what precedes them
+						f := append(le32(v), randBytes(r, int(v)-8)...)
+						f = append(f, le32(crc32.ChecksumIEEE(f))...)
+						tails["crc-ok"] = f[4:]
+					}
 					for _, tn := range []string{"none", "zeros", "zeros16", "crc-ok"} {
 						tail, ok := tails[tn]
 						if !ok {
